@@ -34,6 +34,7 @@ class Contract:
     floor = 1            # minimum number of obligations per case (vacuity guard)
     inline = ()          # callee qualified names (or prefix*) verified by inlining, listed in evidence
     loops = {}           # ordinal -> LoopSpec
+    loop_heads = {}      # ordinal -> header text of the loop the invariant belongs to (binding by header, not by position)
     top_level = False    # postcondition taken from the property statement
     descr = ""
 
@@ -138,31 +139,41 @@ def run_contract_case(I, contract, case, timeout_ms=None, registry=None):
             I.contracts = dict(I.contracts)
             I.contracts.update(contract.local_contracts())
         I.loop_specs = {contract.name: contract.loops} if contract.loops else {}
+        I.loop_heads = {contract.name: dict(getattr(contract, "loop_heads", {}) or {})}
         I.ghost_before = dict(getattr(contract, "ghost_before", {}) or {})
+        I.ghost_masked_assign = getattr(contract, "ghost_masked_assign", None)
         seen = {}
         inputs_holder = {}
 
         def run(ctx):
             a = contract.setup(I, ctx, case)
             inputs_holder["a"] = a
-            if res["cover"] is None:
-                # vacuity guard: the precondition must be satisfiable
-                s = z3.Solver()
-                s.set("timeout", 5000)
-                for h in ctx.hyps():
-                    s.add(h)
-                for h in smt.theory_facts(ctx.hyps()):
-                    s.add(h)
-                r0 = s.check()
-                if r0 == z3.unknown:
-                    # quantified axioms (injectivity, well-formedness) make sat answers unknown: check the quantifier-free part
+            if res["cover"] != "sat":
+                # (checked on every path until one is found satisfiable: the set-up itself may branch, and a branch whose
+                # feasibility the solver left open can turn out infeasible)
+                # vacuity guard: the precondition must be satisfiable; budgets escalate so that a busy machine does
+                # not turn the guard into a checker error
+                r0 = z3.unknown
+                for budget in (5000, 30000, 120000):
                     s = z3.Solver()
-                    s.set("timeout", 5000)
-                    qf = [h for h in ctx.hyps() if not _has_quantifier(h)]
-                    for h in qf + smt.theory_facts(qf):
+                    s.set("timeout", budget)
+                    for h in ctx.hyps():
+                        s.add(h)
+                    for h in smt.theory_facts(ctx.hyps()):
                         s.add(h)
                     r0 = s.check()
-                    res["cover_note"] = "sat checked on the quantifier-free part of the precondition"
+                    if r0 == z3.unknown:
+                        # quantified axioms (injectivity, well-formedness) make sat answers unknown: check the
+                        # quantifier-free part
+                        s = z3.Solver()
+                        s.set("timeout", budget)
+                        qf = [h for h in ctx.hyps() if not _has_quantifier(h)]
+                        for h in qf + smt.theory_facts(qf):
+                            s.add(h)
+                        r0 = s.check()
+                        res["cover_note"] = "sat checked on the quantifier-free part of the precondition"
+                    if r0 != z3.unknown:
+                        break
                 res["cover"] = str(r0)
             old = contract.snapshot(I, ctx, a)
             params = contract.params(f)
